@@ -23,27 +23,35 @@ import gen_data_writers
 LEVEL = "proof"
 MANIFEST = dict(
     category="proof",
-    text="Lean 4 theorems (XmpProps.C15): C15_restore — reset_sample_wraparound(init_sample_wraparound(d)) = d for ALL voice parameters, "
-         "8/16 bit, mono/stereo, forward/bidirectional, first loop or not, any memory; C15_patch_frame/C15_reset_frame/C15_patch_in_bounds — "
-         "only the prologue/epilogue blocks are stored to and, with the guard sizes generated from libxmp_load_sample, they lie inside the "
-         "allocation for all 0<=start<=end<=len; C15_skeleton(+_voice,_kernel_view) — along EVERY path of the softmixer's voice loop (early "
-         "continues, break, one-shot end, swap stop, hot swap to arbitrary samples, loop change) the sample table equals the original when "
-         "control leaves a voice iteration and every mix kernel sees exactly the patched original; C15_writers — every store into pattern/"
-         "track/event/instrument/envelope/sample storage found by the translator in the player-side sources belongs to an allowed class "
-         "(the patch pair via loop_data.sptr, update_invloop, mod->len=0 in xmp_start_player, smix's own tables, loader-only extras "
-         "constructors). Tied to /repo on every run by the regenerated store-site list and constants, by a differential correspondence "
-         "(real init/reset and real softmixer with intercepted kernels vs the native Lean driver) and by a direct digest oracle over all "
-         "module tables after every API call that yields replayable failing inputs.",
-    note="Proof-level: the patch/restore protocol, its bounds, the control skeleton, the writer list. Partial (searched, not proved): the "
-         "effect/player code itself — that update_invloop stays inside the loop is checked by the oracle only (it does not on the pinned "
-         "tree: finding invloop-past-loop-end); stores made by callees outside the scanned player-side files, or through pointers laundered "
-         "via integers / non-local storage, are outside the translator's reach. The skeleton model abstracts which path is taken (all "
-         "paths are covered by the theorem); that the C takes only those paths is established by the correspondence on the cases run. "
-         "Reads of the patch loops (16-bit stereo bidirectional with end=0 would read in front of the guard) are excluded by "
-         "libxmp_load_sample's lps<lpe sanitation (assumed, C03). Instrument extras blobs (MED/HMN) are not digested. Trusted: Lean kernel, "
-         "clang's AST + the walk in gen_data_writers.py, the harnesses and differ, ASan's allocation extents.",
-    technique="Lean 4 proof (pointwise memory lemmas, frame + restore lemma, invariant over the control skeleton, decide over a generated "
-              "list) + clang-AST translator + differential correspondence + digest oracle",
+    text="Lean 4 theorems (XmpProps.C15). C15_restore: reset_sample_wraparound(init_sample_wraparound(d)) = d for ALL voice parameters, 8/16 "
+         "bit, mono/stereo, forward/bidirectional, first loop or not, any interpolator, any memory. C15_patch_frame / C15_reset_frame / "
+         "C15_patch_in_bounds(_wf) / C15_voice_bounds: only the prologue/epilogue blocks are stored to; adjust_voice_end yields "
+         "0<=start<=end<=len for every loop state of a voice on a well-formed sample; with the guard sizes generated from "
+         "libxmp_load_sample the blocks lie inside the allocation. C15_skeleton(_voice,_kernel_view): along EVERY path of the modelled "
+         "voice loop (early continues, break, one-shot end, swap stop, hot swap to arbitrary samples, loop change) the sample table "
+         "equals the original when control leaves a voice iteration and every mix kernel sees exactly the patched original. "
+         "C15_skeleton_shape: the control flow of the real function(s) calling patch/restore, regenerated from the clang AST, passes an "
+         "abstract interpretation (never leaves a voice iteration or the function patched, never patches/restores twice). "
+         "C15_invloop_in_loop: update_invloop stores only inside [lps,lpe) (sustain loop if that is all the sample has). C15_writers: every "
+         "store into pattern/track/event/instrument/envelope/sample storage found by the translator in the player-side sources belongs to "
+         "an allowed class (the patch pair via loop_data.sptr, update_invloop, mod->len=0 in xmp_start_player, smix's own tables, "
+         "loader-only extras constructors). Tied to /repo on every run by the regenerated store-site list, control skeleton and constants, "
+         "by differential correspondences (real init/reset, adjust_voice_end, softmixer with intercepted kernels, update_invloop observed "
+         "per tick vs the native Lean driver) and by a direct digest oracle over all module tables incl. guard frames after every API "
+         "call, which yields replayable failing inputs.",
+    note="Proof-level: patch/restore protocol and bounds, control skeleton (model + generated shape), invert-loop range, writer list. "
+         "Not proved, only tied by sampling: that the C functions compute what the hand-written models say (correspondence on the cases "
+         "run), and the soundness of the token abstraction of C15_skeleton_shape (structured control flow only; goto/switch/?: around "
+         "patch calls are rejected as unsupported). Outside the translator's reach: stores made by callees outside the scanned "
+         "player-side files, through pointers laundered via integers or non-local storage. Effect code other than update_invloop is "
+         "covered by the writer list and the oracle, not modelled. Reads of the patch loops (16-bit stereo bidirectional with end=0 would "
+         "read in front of the guard) are excluded by libxmp_load_sample's lps<lpe sanitation (assumed, C03). Instrument extras blobs "
+         "(MED/HMN) and the module header/order list are not part of the digest verdict (header changes are counted). Finding fixed "
+         "during construction: invloop-past-loop-end (7d6aa67). Trusted: Lean kernel, clang's AST + the walk in gen_data_writers.py, the "
+         "harnesses and differ, ASan's allocation extents.",
+    technique="Lean 4 proof (pointwise memory lemmas, frame + restore lemma, invariant over the control skeleton, decide over generated "
+              "lists / abstract interpretation of a generated token stream) + clang-AST translator + differential correspondence + "
+              "digest oracle",
     design_ref="DESIGN.md section 4 C15",
 )
 NS = "Xmp.Wrap."
